@@ -444,12 +444,12 @@ def check_attach(idx: Index, rep: Report) -> None:
 
 
 def check(idx: Index, rep: Report, tier: str) -> str:
-    check_pairing(idx, rep)
-    check_writers(idx, rep)
-    check_use_pairing(idx, rep)
-    check_arg_shift(idx, rep)
-    check_index_classes(idx, rep)
-    check_attach(idx, rep)
+    rep.run(check_pairing, idx, rep)
+    rep.run(check_writers, idx, rep)
+    rep.run(check_use_pairing, idx, rep)
+    rep.run(check_arg_shift, idx, rep)
+    rep.run(check_index_classes, idx, rep)
+    rep.run(check_attach, idx, rep)
     from .. import shape
 
     shape.check_c01(idx, rep, tier)
